@@ -7,6 +7,8 @@ HOOKS = {
 }
 
 ENGINES = [
+    {"name": "langmc", "path": "/verif/langmc", "serves_properties": ["C15"],
+     "kind_free_text": "Engine C: bounded enumeration of schema syntax trees, token strings, single-token edits and (for C05/C14/C16) schemas pushed through the real parser/compiler/generator in-process (overlay package inside internal/lang) and the Go compiler"},
     {"name": "schedmc", "path": "/verif/schedmc", "serves_properties": ["C03", "C04", "C06", "C07", "C09", "C11", "C18", "C19", "C20"],
      "kind_free_text": "Engine B: controlled-scheduler model checker for the real mpx/rpc code: a go/ast instrumenter rewrites sync, sync/atomic, go, select and channel operations of mpx, rpc, internal/writer and the baselibrary primitives to shims of a cooperative scheduler (injected by go build -overlay); stateless DFS over schedules with preemption / free-switch / environment-deviation bounds; fake transport, virtual time, deterministic LIFO pools; explicit-state BFS over event sequences for flow control; TLA+/TLC model bound to the code by edge-by-edge graph comparison"},
     {"name": "seqmc", "path": "/verif/seqmc", "serves_properties": ["C01", "C02", "C08", "C10", "C12", "C13", "C17"],
@@ -18,6 +20,12 @@ NOTES = "All checks are driven by bin/vcheck (lib/vcheck.py): it rebuilds the en
 NOT_APPLICABLE = {}
 
 CHECKS = {
+    "C15": {
+        "engine": "langmc", "level": "exploration", "design_ref": "DESIGN.md §P C15",
+        "technique": "bounded-exhaustive enumeration of syntax trees x layouts (print -> parse -> compare), of all token strings up to length 3/4 over a 42-token alphabet, and of every single-token edit of the checked-in schema files",
+        "text": "Every syntax tree with one definition from ~570 shapes (all type forms, all contextual keywords as names, boundary integers, every method shape) under 15 header combinations is printed with 4 plain layouts and with a line or block comment in every token gap and must parse back to the same canonical dump; two-definition files cover ordering. All token strings of length <=3 (quick) / <=4 (thorough) over an alphabet with lexical edge tokens, and every single-token deletion, duplication, swap and replacement of the four checked-in .spec files: no panic; an accepted text has no lexical error, records its integer and string literals with their source values and re-prints to a fixed point.",
+        "note": "The printer and canonical dump in the harness are the reference for 'what the source says'; integer literals are interpreted as Go literals (base prefixes, underscores), which is what the scanner tokenises.",
+    },
     "C04": {
         "engine": "schedmc", "level": "model_checking", "design_ref": "DESIGN.md §P C04",
         "technique": "stateless model checking under a controlled scheduler of the real rpc client/server over real mpx connections: all schedules (preemption bound 1) of every ordered pair/triple of concurrent call kinds, checked against a sequential specification keyed by call id; exhaustive malformed-reply and byte-offset connection-loss enumeration",
